@@ -30,14 +30,21 @@ def program(cs, variant="start"):
         deco = "" if c["loop"] == "p" else '@loop("%s")\n' % ("NEW" if c["loop"] == "N" else c["loop"])
         prio = "  priority 0.5\n" if c["half"] else ""
         match = "  match E(%s)\n" % ", ".join(args) if args is not None else "  match Other()\n"
-        if c.get("wrap"):
+        if c.get("doomed"):
+            # started by a guard flow that ends a few internal steps after the event: the competitor has matched the event
+            # and reached its action, but is stopped before the actions of this event are decided
+            out.append("%sflow c%d\n%s  start XAction(v=%d)\n  match W%d()\n" % (deco, i, match, c["act"], i))
+            out.append("flow g%d\n  start c%d\n  match E()\n  await noop\n" % (i, i))
+        elif c.get("wrap"):
             # the event is matched by a helper flow; the competitor waits for the helper to finish
             out.append("flow h%d\n%s" % (i, match))
             out.append("%sflow c%d\n%s  await h%d\n  start XAction(v=%d)\n  match W%d()\n" % (deco, i, prio, i, c["act"], i))
         else:
             out.append("%sflow c%d\n%s%s  start XAction(v=%d)\n  match W%d()\n" % (deco, i, prio, match, c["act"], i))
-    main = "flow main\n" + "".join("  %s c%d\n" % ("activate" if variant == "activate" else "start", i) for i in range(1, len(cs) + 1)) + "  match Never()\n"
-    return "\n".join(out) + "\n" + main
+    main = "flow main\n" + "".join("  %s %s%d\n" % ("activate" if variant == "activate" and not c.get("doomed") else "start", "g" if c.get("doomed") else "c", i)
+                                    for i, c in enumerate(cs, start=1)) + "  match Never()\n"
+    noop = "flow noop\n  $done = 1\n\n" if any(c.get("doomed") for c in cs) else ""
+    return noop + "\n".join(out) + "\n" + main
 
 
 def observe(st, n):
@@ -96,8 +103,8 @@ def _worker(chunk):
 
 
 def run(ctx):
-    fam = [(2, 3, ctx.seed % 3)] if ctx.quick else [(2, 1, 0)]
-    fam += [(3, 512, ctx.seed % 512)] if ctx.quick else [(3, 64, ctx.seed % 64), (4, 65536, ctx.seed % 65536)]
+    fam = [(2, 5, ctx.seed % 5)] if ctx.quick else [(2, 1, 0)]
+    fam += [(3, 1024, ctx.seed % 1024)] if ctx.quick else [(3, 128, ctx.seed % 128), (4, 131072, ctx.seed % 131072)]
     scripts = []
     states = trans = 0
     for (n, parts, part) in fam:
@@ -143,7 +150,7 @@ def run(ctx):
         if not verd[i]:
             cs = scripts[k]
             ctx.violation("resolution", "competitors %s, tie-break pick %d: outcome %s, started actions %s" % (
-                [{x: c[x] for x in ("k", "half", "loop", "act", "fits", "wrap")} for c in cs], o["pick"], o["outcome"], o["starts"]),
+                [{x: c[x] for x in ("k", "half", "loop", "act", "fits", "wrap", "doomed")} for c in cs], o["pick"], o["outcome"], o["starts"]),
                 {"cs": cs, "pick": o["pick"], "observed": {"outcome": o["outcome"], "starts": o["starts"]}, "source": res[k][2],
                  "sig": {"n": len(cs), "loops": sorted(set(c["loop"] for c in cs)), "same_action": len(set(c["act"] for c in cs)) < len(cs)}})
     nontrivial = sum(1 for cs in scripts if sum(1 for c in cs if c["fits"]) >= 2)
@@ -152,7 +159,8 @@ def run(ctx):
     return {"level": LEVEL, "coverage": {
         "states": states + jr.distinct, "transitions": trans + jr.generated, "traces_validated_against_impl": len(cases),
         "evaluations": runs, "distinct_nontrivial": nontrivial,
-        "rule": "all families of 2 competing flows (unmentioned parameters 0..3, priority 1.0/0.5, loop parent/named/NEW, 2 action identities, match fits or not) "
+        "rule": "all families of 2 competing flows (unmentioned parameters 0..3, priority 1.0/0.5, loop parent/named/NEW, 2 action identities, match fits or not, waits for a helper flow or not, "
+                "at most one competitor that is stopped while the event is still being processed) "
                 "and a seeded partition of the families of 3 (thorough: + 4) flows, started or activated from main, one triggering event, every scripted "
                 "tie-break pick; non-trivial = at least two flows whose match fits",
         "samples": samples, "exhaustive": False, "runs_with_real_tie": tie_runs,
